@@ -1021,3 +1021,44 @@ def run_I6(chk, prefixes, rule="I6", floor=25):
                 chk.bad(rule, (f, node), node, f"{f.short}(): {msg}", facts)
     chk.extra["zip_sites_with_selectable_families"] = n
     return n
+
+
+def run_I7(chk, rule="I7"):
+    """I7: the fields that consume_transpose() permutes travel together.  Where a tensor takes over the state of its own consumed copy
+    in place (`c = a.consume_transpose(); a.struct, .. , a._trans = c.struct, .., c._trans`), every permuted field -- struct, slices,
+    hfs, data, trans -- is taken from the copy: a field left behind stays in the old native order while the others are permuted
+    (e.g. fusion histories, which also record each leg's signature, no longer belong to their legs)."""
+    prog = chk.prog
+    chk.rule(rule, "in-place consumption of the pending permutation takes struct, slices, hfs, data and trans from the consumed copy together", floor=1)
+    need = {"struct", "slices", "hfs", "_data", "_trans"}
+    n = 0
+    for f in functions(prog):
+        if "consume_transpose" not in A.text(f.node):
+            continue
+        b = A.local_bindings(f.node)
+        copies = {nm: v.func.value.id for nm, ds in b.items() for st, v, k in ds if k == "assign" and isinstance(v, ast.Call) and isinstance(v.func, ast.Attribute)
+                  and v.func.attr == "consume_transpose" and isinstance(v.func.value, ast.Name)}
+        for cname, owner in copies.items():
+            if cname == owner:
+                continue
+            stores = {}
+            for st in A.walk_local(f.node, include_self=False):
+                if not isinstance(st, ast.Assign):
+                    continue
+                tg, vl = st.targets[0], st.value
+                pairs = list(zip(tg.elts, vl.elts)) if isinstance(tg, ast.Tuple) and isinstance(vl, ast.Tuple) and len(tg.elts) == len(vl.elts) else [(tg, vl)]
+                for t_, v_ in pairs:
+                    if isinstance(t_, ast.Attribute) and isinstance(t_.value, ast.Name) and t_.value.id == owner and isinstance(v_, ast.Attribute) \
+                            and isinstance(v_.value, ast.Name) and v_.value.id == cname:
+                        stores[t_.attr] = (st, v_.attr)
+            if not ({"_trans", "trans"} & set(stores)):
+                continue
+            n += 1
+            got = {("_trans" if k == "trans" else "_data" if k == "data" else k) for k in stores}
+            missing = sorted(need - got)
+            site = next(iter(stores.values()))[0]
+            chk.verdict(rule, (f, site), f"{f.short}: `{owner}` takes {sorted(got)} from its consumed copy `{cname}`", False if missing else True,
+                        f"{f.short}(): `{owner}` takes over `{', '.join(sorted(got))}` of its consumed copy `{cname}` but not `{', '.join(missing)}`: consume_transpose() "
+                        f"permutes struct, slices, hfs and data together and resets trans; the field left behind stays in the old native order -- "
+                        f"is_consistent() fails and leg-based operations address the wrong leg (only for a lazily transposed tensor whose legs differ)")
+    return n
